@@ -1,7 +1,8 @@
 ------------------------------- MODULE Layout -------------------------------
 (* C11 (and layout-shaped inputs for C23): a source file as a sequence of ITEMS.
 
-   A SKELETON (LayoutSkel) is the token sequence of a valid file: toks[j] = <<text, class>> with
+   A SKELETON (LayoutSkel) is the token sequence of a valid file: toks[j] = <<text, class>> (plus the
+   UTF-8 byte length when the text holds <U+XXXX> placeholders) with
    class "w" (identifier / keyword / number), "s" (string literal), "p" (punctuation), and a default
    white-space run for every GAP: gaps[g + 1] for gap g \in 0..n, gap 0 before the first token, gap g
    between token g and token g + 1, gap n before the end of the file.
@@ -59,9 +60,10 @@ Text(sk, it) ==
     [] it[1] = "BCE"  -> "/**/"
     [] it[1] = "DOC"  -> "/** d" \o Num(it[2]) \o "\n   * more\n   */"
 
-(* UTF-8 length *)
+(* UTF-8 length; a token with non-ASCII characters carries its byte length as a third component *)
+TokBytes(tok) == IF Len(tok) = 3 THEN tok[3] ELSE Len(tok[1])
 ByteLen(sk, it) ==
-  CASE it[1] = "TOK"  -> Len(sk.toks[it[2]][1])
+  CASE it[1] = "TOK"  -> TokBytes(sk.toks[it[2]])
     [] it[1] = "CRLF" -> 2
     [] it[1] = "BOM"  -> 3
     [] it[1] \in WsKinds -> 1
@@ -113,7 +115,7 @@ NComments(its) == SumOver(its, LAMBDA it : IF IsComment(it) THEN 1 ELSE 0, 1)
 RECURSIVE BaseFrom(_, _, _)
 BaseFrom(sk, g, acc) ==
   LET its == GapItems(sk, <<>>, g)
-      a2  == <<acc[1] + Bytes(sk, its) + (IF g < NGaps(sk) THEN Len(sk.toks[g + 1][1]) ELSE 0), acc[2] + LineFeeds(its)>>
+      a2  == <<acc[1] + Bytes(sk, its) + (IF g < NGaps(sk) THEN TokBytes(sk.toks[g + 1]) ELSE 0), acc[2] + LineFeeds(its)>>
   IN IF g = NGaps(sk) THEN a2 ELSE BaseFrom(sk, g + 1, a2)
 Base(sk) == BaseFrom(sk, 0, <<0, 0>>)
 
